@@ -544,6 +544,74 @@ func TestReplayC12(t *testing.T) {
 		}{}
 		_ = cols
 		checkStringCol(t, "name", hs, rs, page, round)
+		// numeric columns (schema order: id 0, ratio 4, count 5, amount 9): bounds in the column type's order
+		checkNumCol(t, "id", 0, hs, rs, page, round, func(x Rec) (float64, int64, uint64, bool) { return 0, x.ID, 0, true }, 'i', 8)
+		checkNumCol(t, "count", 5, hs, rs, page, round, func(x Rec) (float64, int64, uint64, bool) { return 0, 0, uint64(x.Count), true }, 'u', 4)
+		checkNumCol(t, "amount", 9, hs, rs, page, round, func(x Rec) (float64, int64, uint64, bool) { return 0, int64(x.Amount), 0, true }, 'i', 4)
+		checkNumCol(t, "ratio", 4, hs, rs, page, round, func(x Rec) (float64, int64, uint64, bool) {
+			if x.Ratio == nil {
+				return 0, 0, 0, false
+			}
+			return *x.Ratio, 0, 0, true
+		}, 'f', 8)
+	}
+}
+
+// checkNumCol recomputes the statistics of one non-repeated numeric column page by page.
+func checkNumCol(t *testing.T, col string, ci int, hs interface{}, rs []Rec, page, round int, get func(Rec) (float64, int64, uint64, bool), kind byte, width int) {
+	headers := reflect.ValueOf(hs)
+	nPages := (len(rs) + page - 1) / page
+	dec := func(b []byte) (float64, int64, uint64) {
+		var u uint64
+		for k := width - 1; k >= 0; k-- {
+			u = u<<8 | uint64(b[k])
+		}
+		switch {
+		case kind == 'f':
+			return math.Float64frombits(u), 0, 0
+		case kind == 'i' && width == 4:
+			return 0, int64(int32(uint32(u))), 0
+		case kind == 'i':
+			return 0, int64(u), 0
+		}
+		return 0, 0, u
+	}
+	for p := 0; p < nPages; p++ {
+		st := headers.Index(ci*nPages + p).FieldByName("DataPageHeader").Elem().FieldByName("Statistics").Elem()
+		minB, maxB := st.FieldByName("MinValue").Bytes(), st.FieldByName("MaxValue").Bytes()
+		nc := st.FieldByName("NullCount")
+		var nulls int64
+		for i := p * page; i < (p+1)*page && i < len(rs); i++ {
+			f, sv, uv, ok := get(rs[i])
+			if !ok {
+				nulls++
+				continue
+			}
+			if kind == 'f' && f != f {
+				continue // NaN is outside the order
+			}
+			if len(minB) != width || len(maxB) != width {
+				t.Errorf("REPLAY-FAIL C12 round=%d column=%s page=%d: a value is present but min/max are absent or not %d bytes", round, col, p, width)
+				continue
+			}
+			fmin, smin, umin := dec(minB)
+			fmax, smax, umax := dec(maxB)
+			bad := false
+			switch kind {
+			case 'f':
+				bad = !(fmin <= f && f <= fmax)
+			case 'i':
+				bad = !(smin <= sv && sv <= smax)
+			default:
+				bad = !(umin <= uv && uv <= umax)
+			}
+			if bad {
+				t.Errorf("REPLAY-FAIL C12 round=%d column=%s page=%d: value (%v %d %d) outside the page bounds [% x, % x]", round, col, p, f, sv, uv, minB, maxB)
+			}
+		}
+		if !nc.IsNil() && nc.Elem().Int() != nulls {
+			t.Errorf("REPLAY-FAIL C12 round=%d column=%s page=%d: null_count %d, %d entries without a value", round, col, p, nc.Elem().Int(), nulls)
+		}
 	}
 }
 
